@@ -194,7 +194,7 @@ func checkC11(tier string) int {
 		scripts: []string{"stakingb", "evidence", "transfers"},
 		nhQ:     8, nhT: 50, blQ: 48, blT: 150,
 		params: func(i int, hseed int64) world.Params {
-			return world.Params{Frankenstein: int64(i % 2), NumGenesisVals: 4, NumCandidates: 3, TopValidators: 6, StakeMaturity: int64(2 + i%4)}
+			return world.Params{Frankenstein: int64(i % 2), NumGenesisVals: 4, NumCandidates: 4, TopValidators: 6, StakeMaturity: int64(2 + i%4)}
 		},
 		newMon: func(w *world.World) func(run *hist.Runner, blk *hist.Block) []mon.Finding {
 			m := mon.NewC11()
